@@ -73,6 +73,8 @@ func Universe3WayW(withBad bool, window int) *Universe {
 		tBad.Txid, _ = txhash.MakeTransactionID(tBad)
 		b.Raw("tBadSig", tBad, true)
 		b.BadBlock("bv2", "a1", "M", []*pb.Transaction{b.U.Tx("tA2"), tBad}, false)
+		// the same one level up: a walk g -> bv3 applies a1 and a2 and stops at bv3
+		b.BadBlock("bv3", "a2", "M", []*pb.Transaction{tBad}, false)
 		b.BadBlock("o1", "g", "P", nil, false)
 		b.BadBlock("o2", "o1", "P", nil, false)
 	}
@@ -125,6 +127,28 @@ func UniverseKV() *Universe {
 	}
 	b.Raw("pR", pR, false)
 	_ = kvR
+	return b.Done()
+}
+
+// UniverseKVOrphan: a writer that is confirmed on a branch which loses, and
+// can be submitted again on the winning branch (it spends an output nobody
+// else touches and reads the version both branches share).
+//
+//	g - m1 - m2            m1: kvA (A: put k1 x)   m2: kvT (B: put k1 t;put k2 t)
+//	     \-- n2 - n3 - n4  n2, n3: award only     n4: kvT again
+func UniverseKVOrphan() *Universe {
+	b := NewUniverse("U-kv-orphan", DefaultConfig(), RegisterVKV)
+	root := b.Root()
+	b.At("g")
+	b.KV("kvA", "A", "put k1 x", []In{{Tx: root, Offset: 0}})
+	b.Block("m1", "M")
+	b.KV("kvT", "B", "put k1 t;put k2 t", []In{{Tx: root, Offset: 1}})
+	b.Block("m2", "M")
+	b.At("m1")
+	b.Block("n2", "P")
+	b.Block("n3", "P")
+	b.Resubmit("kvT")
+	b.Block("n4", "P")
 	return b.Done()
 }
 
